@@ -19,13 +19,13 @@ META = {
         'membership test (IN list / VALUES CTE used only with IN); rows inserted by executemany. Sanitizers: sorted() '
         'without key, set(), len/sum/any/all, min/max without key, membership. R2: no function outside the connection '
         'pool / configuration mutates module-level state (read-only calls do not change later results); the '
-        'who-may-write rule over SQL is C05-R3. R4 no unintended sharing of mutable objects between results. R5 no one-shot iterator (map, filter, zip, generator) is kept in an attribute.'),
+        'who-may-write rule over SQL is C05-R3. R7: keyless sorted()/min()/max() over a set counts as a sanitiser only when the elements are not database entities (entities compare by rowid and all placeholder synsets share one, so ties keep set order). R4 no unintended sharing of mutable objects between results. R5 no one-shot iterator (map, filter, zip, generator) is kept in an attribute.'),
     'decides': ['no hash-seed-ordered value reaches a result, a file or a position-sensitive SQL parameter',
                 'no query path writes module-level state', 'no one-shot iterator is kept in an attribute'],
     'not_decided': ['order of rows SQLite returns for queries without ORDER BY (taken as a function of content)',
                     'float rounding'],
     'assumptions': ['str/int hashing affects only set/frozenset iteration order; dicts keep insertion order',
-                    'entity __lt__ (rowid) gives sorted() a total order on entities of one type'],
+                    'R7: element types of keyless sorted() over sets are inferred from annotations only (positive evidence)'],
 }
 
 PUBLIC_MODULES = {'taxonomy', 'similarity', 'ic', 'morphy', 'validate', 'lmf', 'util', 'project', 'constants',
@@ -328,6 +328,339 @@ def r6_output_independent_of_locale(ctx, res):
     text_files_name_their_encoding(ctx, res, prefix='locale-independent')
 
 
+# ---------------------------------------------------------------------------
+# R7: keyless sorted()/min()/max() over a set is a sanitiser only for totally ordered elements
+
+_FLAT_PASS = {'set', 'frozenset', 'list', 'tuple', 'sorted', 'reversed', 'iter', 'flatten', 'unique_list', 'chain', 'filter'}
+_SET_METHODS = {'intersection', 'union', 'difference', 'symmetric_difference', 'copy'}
+
+
+def _entity_classes(ctx):
+    """classes of wn._core deriving from _DatabaseEntity: their __lt__ compares rowids, and placeholders share NON_ROWID"""
+    core = ctx.repo.mod('_core')
+    bases = {}
+    for n in core.tree.body:
+        if isinstance(n, ast.ClassDef):
+            bases[n.name] = [norm(b).split('.')[-1] for b in n.bases]
+    ent = {'_DatabaseEntity'} if '_DatabaseEntity' in bases else set()
+    changed = True
+    while changed:
+        changed = False
+        for c, bs in bases.items():
+            if c not in ent and any(b in ent for b in bs):
+                ent.add(c)
+                changed = True
+    return ent
+
+
+def _ann_says(ann, entities, module=None):
+    """True: the annotation names an entity class of wn._core; False: it names only scalars; None: says nothing"""
+    if ann is None:
+        return None
+    if isinstance(ann, ast.Constant) and isinstance(ann.value, str):
+        try:
+            ann = ast.parse(ann.value, mode='eval').body
+        except SyntaxError:
+            return None
+    names = set()
+    for n in ast.walk(ann):
+        if isinstance(n, ast.Constant) and isinstance(n.value, str):
+            try:
+                sub = ast.parse(n.value, mode='eval').body
+            except SyntaxError:
+                continue
+            r = _ann_says(sub, entities, module)
+            if r is True:
+                return True
+            names.add('?' if r is None else 'str')
+        elif isinstance(n, ast.Name):
+            if n.id in entities:
+                imp = module.imports.get(n.id) if module is not None else None
+                if module is None or module.short == '_core' or (imp and imp[0] == 'obj' and imp[1] in ('wn', 'wn._core')):
+                    return True
+                names.add('?')
+            else:
+                names.add(n.id)
+        elif isinstance(n, ast.Attribute):
+            if n.attr in entities and isinstance(n.value, ast.Name):
+                imp = module.imports.get(n.value.id) if module is not None else None
+                if imp and imp[0] == 'mod' and imp[1] in ('wn', 'wn._core'):
+                    return True
+            names.add('?')
+    scalars = {'str', 'int', 'float', 'bytes'}
+    shapes = {'set', 'frozenset', 'list', 'tuple', 'dict', 'Set', 'List', 'Tuple', 'Dict', 'Sequence', 'Iterable', 'Iterator', 'Optional',
+              'Collection', 'AbstractSet', 'FrozenSet', 'None', 'Counter', 'Mapping'}
+    if names & scalars and not (names - scalars - shapes):
+        return False
+    return None
+
+
+def holds_entities(ctx, f, expr, entities, depth=0, comp_env=None):
+    """do the elements of the collection `expr` (anywhere inside, nested containers flattened) include database entities?
+    True / False / None (not inferred).  Positive evidence only: annotations and the return annotations of the functions called."""
+    from ..pyutil import binding_sites
+    comp_env = comp_env or {}
+    if depth > 8 or expr is None:
+        return None
+
+    def any3(vals):
+        vals = list(vals)
+        if any(v is True for v in vals):
+            return True
+        if vals and all(v is False for v in vals):
+            return False
+        return None
+    if isinstance(expr, ast.Constant):
+        return False
+    if isinstance(expr, (ast.JoinedStr, ast.Compare, ast.BoolOp)) and not isinstance(expr, ast.BoolOp):
+        return False
+    if isinstance(expr, ast.BoolOp):
+        return any3(holds_entities(ctx, f, v, entities, depth + 1, comp_env) for v in expr.values)
+    if isinstance(expr, ast.IfExp):
+        return any3(holds_entities(ctx, f, v, entities, depth + 1, comp_env) for v in (expr.body, expr.orelse))
+    if isinstance(expr, (ast.Tuple, ast.List, ast.Set)):
+        return any3(holds_entities(ctx, f, v, entities, depth + 1, comp_env) for v in expr.elts) if expr.elts else False
+    if isinstance(expr, ast.Starred):
+        return holds_entities(ctx, f, expr.value, entities, depth + 1, comp_env)
+    if isinstance(expr, (ast.SetComp, ast.ListComp, ast.GeneratorExp)):
+        env = dict(comp_env)
+        for g in expr.generators:
+            src = holds_entities(ctx, f, g.iter, entities, depth + 1, env)
+            for n in ast.walk(g.target):
+                if isinstance(n, ast.Name):
+                    env[n.id] = src
+        return holds_entities(ctx, f, expr.elt, entities, depth + 1, env)
+    if isinstance(expr, ast.BinOp):
+        if isinstance(expr.op, (ast.BitOr, ast.BitAnd, ast.Sub, ast.BitXor, ast.Add)):
+            return any3(holds_entities(ctx, f, v, entities, depth + 1, comp_env) for v in (expr.left, expr.right))
+        return None
+    if isinstance(expr, ast.Subscript):
+        if isinstance(expr.slice, ast.Slice):
+            return holds_entities(ctx, f, expr.value, entities, depth + 1, comp_env)
+        if isinstance(expr.slice, ast.Constant) and isinstance(expr.slice.value, str):
+            return None     # a field of a record: nothing known
+        # an element of a container: of the container's kind (nested containers are flattened)
+        return holds_entities(ctx, f, expr.value, entities, depth + 1, comp_env)
+    if isinstance(expr, ast.Attribute):
+        if expr.attr in ('id', 'pos', 'ili', 'name', 'version', 'language', 'label', '_id', '_lexid'):
+            return False
+        return None
+    if isinstance(expr, ast.Name):
+        if expr.id in comp_env:
+            return comp_env[expr.id]
+        for p in f.param_nodes():
+            if p.arg == expr.id:
+                return _ann_says(p.annotation, entities, f.module)
+        vals = []
+        for n in walk_no_nested(f.node):
+            if isinstance(n, ast.AnnAssign) and isinstance(n.target, ast.Name) and n.target.id == expr.id:
+                a = _ann_says(n.annotation, entities, f.module)
+                if a is not None:
+                    return a
+        for b in binding_sites(f.node, expr.id):
+            if b[0] == 'assign' and b[1] is not None:
+                vals.append(holds_entities(ctx, f, b[1], entities, depth + 1, comp_env))
+            elif b[0] == 'for' and b[1] is not None:
+                vals.append(holds_entities(ctx, f, b[1], entities, depth + 1, comp_env))
+        for n in walk_no_nested(f.node):
+            if isinstance(n, ast.Call) and isinstance(n.func, ast.Attribute) and isinstance(n.func.value, ast.Name) \
+                    and n.func.value.id == expr.id and n.func.attr in ('add', 'update', 'append', 'extend') and n.args:
+                vals.append(holds_entities(ctx, f, n.args[0], entities, depth + 1, comp_env))
+            if isinstance(n, ast.AugAssign) and isinstance(n.target, ast.Name) and n.target.id == expr.id:
+                vals.append(holds_entities(ctx, f, n.value, entities, depth + 1, comp_env))
+        return any3(vals)
+    if isinstance(expr, ast.Call):
+        fn = expr.func
+        name = fn.id if isinstance(fn, ast.Name) else fn.attr if isinstance(fn, ast.Attribute) else ''
+        if isinstance(fn, ast.Name) and name in entities:
+            return True
+        if isinstance(fn, ast.Name) and name in _FLAT_PASS and name not in f.module.funcs:
+            return any3(holds_entities(ctx, f, a, entities, depth + 1, comp_env) for a in expr.args) if expr.args else False
+        if isinstance(fn, ast.Attribute) and name in _SET_METHODS:
+            return any3([holds_entities(ctx, f, fn.value, entities, depth + 1, comp_env)]
+                        + [holds_entities(ctx, f, a, entities, depth + 1, comp_env) for a in expr.args])
+        if name in ('len', 'str', 'int', 'repr', 'format', 'join', 'lower', 'strip', 'split', 'keys') and name not in f.module.funcs:
+            return False
+        # a function / method of the repository: its return annotation
+        anns = []
+        for call, cal in ctx.cg.callees(f):
+            if call is expr:
+                anns = [_ann_says(c.node.returns, entities, c.module) for c in cal]
+        if anns:
+            if any(a is True for a in anns):
+                return True
+            if all(a is False for a in anns):
+                return False
+        return None
+    return None
+
+
+def r7_keyless_ordering_is_total(ctx, res):
+    """`sorted(S)` (min, max) without a key turns a set into a seed-independent sequence only if no two distinct elements
+    compare as equal.  Strings, numbers and tuples of them do; database entities do not: _DatabaseEntity.__lt__ compares
+    rowids, and all inferred / simulated placeholder synsets share NON_ROWID - ties keep the input order, i.e. the iteration
+    order of the set.  Every keyless ordering of a set-ordered collection must not be over entities."""
+    an = ctx.repo.cache('ont', lambda: Analysis(ctx).run())
+    entities = _entity_classes(ctx)
+    if 'Synset' not in entities or len(entities) < 5:
+        raise AnalysisError(f'entity classes not found in wn/_core.py: {sorted(entities)}')
+    res.note(f'entity classes (ordered by rowid, placeholders tie): {sorted(entities)}')
+    n = 0
+    for (fkey, text), (f, call) in sorted(an.keyless_orderings.items()):
+        n += 1
+        key = f'keyless-order:{fkey}:{text[:60]}'
+        he = holds_entities(ctx, f, call.args[0], entities)
+        res.inst(key, f.module.loc(call), {True: 'elements are database entities', False: 'elements are strings / numbers',
+                                           None: 'element type not inferred (no entity annotation on any source)'}[he])
+        if he is True:
+            res.find(key, f.module.loc(call),
+                     f'{f.qualname}: `{text[:80]}` orders a set of database entities without a key: entities compare by rowid and '
+                     f'placeholder synsets (*INFERRED*, *ROOT*) all share one, so equal items stay in set-iteration order, which '
+                     f'depends on PYTHONHASHSEED')
+    if n < 5:
+        raise AnalysisError(f'only {n} keyless orderings of set-ordered collections found')
+
+
+# ---------------------------------------------------------------------------
+# R8: nothing an API result or written file is computed from depends on the clock, the process or a random source
+
+_CLOCK = {('time', x) for x in ('time', 'time_ns', 'monotonic', 'perf_counter', 'ctime', 'asctime', 'localtime', 'gmtime', 'strftime',
+                                'process_time')} | \
+    {('datetime', x) for x in ('now', 'utcnow', 'today')} | {('date', 'today')} | \
+    {('os', x) for x in ('getpid', 'getppid', 'urandom', 'times', 'getlogin', 'uname')} | \
+    {('uuid', x) for x in ('uuid1', 'uuid4')} | {('socket', 'gethostname'), ('platform', 'node')}
+_RANDOM_MODULES = {'random', 'secrets'}
+# writers that stamp their output with the current time unless told otherwise
+_STAMPING = {('gzip', 'open'): 'mtime', ('gzip', 'GzipFile'): 'mtime', ('gzip', 'compress'): 'mtime'}
+_ARCHIVE_WRITERS = {('tarfile', 'open'), ('zipfile', 'ZipFile'), ('shutil', 'make_archive')}
+
+
+def _mode_of(call, pos=1):
+    for k in call.keywords:
+        if k.arg == 'mode':
+            return k.value
+    return call.args[pos] if len(call.args) > pos else None
+
+
+def _is_read_mode(m):
+    """the mode argument of an open()-like call: True read-only, False writing, None unknown"""
+    if m is None:
+        return True      # default mode of gzip.open / GzipFile / tarfile.open is reading
+    if isinstance(m, ast.Constant) and isinstance(m.value, str):
+        return not any(ch in m.value for ch in 'wax+')
+    return None
+
+
+def r8_no_clock_or_process_dependence(ctx, res):
+    """API results and the bytes written by dump / export are a function of database content and arguments: no value flows from
+    the clock, the process id, the host or a random source, and no writer stamps its output with the current time - gzip.open /
+    GzipFile in a writing mode put `time.time()` into the header (bytes 4-7) unless mtime= is given; tar / zip writers store
+    member times.  Every reference to such a source in wn/ is examined; gzip readers are fine."""
+    from ..pyutil import binding_sites
+    n = 0
+    for f in ctx.repo.all_funcs():
+        m = f.module
+        for node in walk_no_nested(f.node):
+            if isinstance(node, ast.Name) and isinstance(node.ctx, ast.Load):
+                # `from gzip import open as gzopen`
+                imp = m.imports.get(node.id)
+                if not (imp and imp[0] == 'ext' and '.' in imp[1]) or node.id in f.params:
+                    continue
+                modname, attr = imp[1].rsplit('.', 1)[0].split('.')[-1], imp[1].rsplit('.', 1)[1]
+            elif isinstance(node, ast.Attribute) and isinstance(node.value, ast.Name):
+                imp = m.imports.get(node.value.id)
+                modname = imp[1].split('.')[-1] if imp and imp[0] == 'ext' else None
+                attr = node.attr
+                if modname is None:
+                    continue
+            else:
+                continue
+            pair = (modname, attr)
+            loc = m.loc(node)
+            if pair in _CLOCK or modname in _RANDOM_MODULES:
+                n += 1
+                key = f'env-source:{f.key}:{modname}.{attr}'
+                res.inst(key, loc, 'clock / process / random source')
+                res.find(key, loc, f'{f.qualname} reads {modname}.{attr}: a value that differs between calls and processes for the same '
+                                   f'database content and arguments')
+                continue
+            if pair in _STAMPING or pair in _ARCHIVE_WRITERS:
+                n += 1
+                key = f'stamping-writer:{f.key}:{modname}.{attr}'
+                par = getattr(node, '_parent', None)
+                calls = []
+                if isinstance(par, ast.Call) and par.func is node:
+                    calls = [par]
+                else:
+                    # a reference kept in a local (`opener = gzip.open if .. else lzma.open`): the calls of that local
+                    p = par
+                    while p is not None and not isinstance(p, (ast.Assign, ast.AnnAssign, ast.FunctionDef)):
+                        p = getattr(p, '_parent', None)
+                    tgt = None
+                    if isinstance(p, ast.Assign) and len(p.targets) == 1 and isinstance(p.targets[0], ast.Name):
+                        tgt = p.targets[0].id
+                    elif isinstance(p, ast.AnnAssign) and isinstance(p.target, ast.Name):
+                        tgt = p.target.id
+                    if tgt is not None:
+                        calls = [c for c in walk_no_nested(f.node) if isinstance(c, ast.Call) and isinstance(c.func, ast.Name) and c.func.id == tgt]
+                    if not calls:
+                        calls = [None]
+                verdicts = []
+                for c in calls:
+                    if c is None:
+                        verdicts.append(None)
+                        continue
+                    if any(k.arg == _STAMPING.get(pair) for k in c.keywords):
+                        verdicts.append(True)
+                        continue
+                    verdicts.append(_is_read_mode(_mode_of(c, 1 if pair != ('gzip', 'compress') else 99)) if pair != ('gzip', 'compress') else False)
+                res.inst(key, loc, f'{[norm(c)[:50] if c is not None else "kept as a value" for c in calls]} -> read-only: {verdicts}')
+                if not all(v is True for v in verdicts):
+                    res.find(key, loc, f'{f.qualname} uses {modname}.{attr} for writing (or in a way the analysis cannot follow): the output '
+                                       f'carries the current time (gzip header bytes 4-7 / archive member times) unless mtime is fixed - two '
+                                       f'runs with the same content and arguments write different bytes')
+    # module level: tables of openers (`_OPENERS = {'.gz': gzip.open}`) are used from functions - followed through their readers
+    for m in ctx.repo.modules.values():
+        for st in m.tree.body:
+            if not isinstance(st, (ast.Assign, ast.AnnAssign)) or getattr(st, 'value', None) is None:
+                continue
+            refs = [x for x in ast.walk(st.value) if isinstance(x, ast.Attribute) and isinstance(x.value, ast.Name)
+                    and (m.imports.get(x.value.id) or ('', ''))[0] == 'ext'
+                    and ((m.imports[x.value.id][1].split('.')[-1], x.attr) in _STAMPING
+                         or (m.imports[x.value.id][1].split('.')[-1], x.attr) in _ARCHIVE_WRITERS)]
+            if not refs:
+                continue
+            tname = norm(st.targets[0]) if isinstance(st, ast.Assign) else norm(st.target)
+            for x in refs:
+                n += 1
+                key = f'stamping-writer:{m.short}.{tname}:{norm(x)}'
+                # locals bound from the table, and their calls
+                bad = []
+                seen_use = False
+                for f in ctx.repo.all_funcs():
+                    if f.module is not m:
+                        continue
+                    for a in walk_no_nested(f.node):
+                        if isinstance(a, ast.Assign) and len(a.targets) == 1 and isinstance(a.targets[0], ast.Name) \
+                                and any(isinstance(y, ast.Name) and y.id == tname for y in ast.walk(a.value)):
+                            loc_name = a.targets[0].id
+                            for c in walk_no_nested(f.node):
+                                if isinstance(c, ast.Call) and isinstance(c.func, ast.Name) and c.func.id == loc_name:
+                                    seen_use = True
+                                    if _is_read_mode(_mode_of(c)) is not True and not any(k.arg == 'mtime' for k in c.keywords):
+                                        bad.append((f, c))
+                res.inst(key, m.loc(x), f'table `{tname}`; calls through it with a writing / unknown mode: {len(bad)}')
+                if bad or not seen_use:
+                    f, c = bad[0] if bad else (None, None)
+                    res.find(key, m.loc(c) if c is not None else m.loc(x),
+                             f'`{norm(x)}` is kept in `{tname}` and ' + (f'called by {f.qualname} as `{norm(c)[:70]}`' if c is not None
+                                                                        else 'used in a way the analysis cannot follow') +
+                             ': a gzip stream written this way carries the current time in its header - dump / export to the same '
+                             'destination twice gives different bytes')
+    if n < 1:
+        raise AnalysisError('no reference to a compressing / archiving library found (expected gzip.open in wn/project.py)')
+
+
 RULES = [
     ('C16-R1', r1_ont, 300),
     ('C16-R2', r2_no_hidden_state, 300),
@@ -335,4 +668,6 @@ RULES = [
     ('C16-R4', r4_no_shared_objects, 4),
     ('C16-R5', r5_no_one_shot_iterators_kept, 40),
     ('C16-R6', r6_output_independent_of_locale, 6),
+    ('C16-R7', r7_keyless_ordering_is_total, 5),
+    ('C16-R8', r8_no_clock_or_process_dependence, 1),
 ]
